@@ -23,6 +23,7 @@ BUILD = os.path.join(VERIF, 'build', 'verus')
 VC_KINDS = [
     ('postcondition not satisfied', 'ensures'),
     ('precondition not satisfied', 'requires@callsite'),
+    ('precondition not met', 'requires@callsite'),
     ('possible arithmetic underflow/overflow', 'overflow'),
     ('possible division by zero', 'divzero'),
     ('decreases not satisfied', 'decreases'),
